@@ -185,15 +185,22 @@ def case_static(c, out):
   core = pox.core.core
   old = core.components.get("openflow_discovery")
   core.components["openflow_discovery"] = stub
+  tree = None
   try:
     tree = ST._calc_spanning_tree()
+  except Exception as e:
+    _exc(out, e, "calc-tree-raises")
   finally:
     if old is None:
       core.components.pop("openflow_discovery", None)
     else:
       core.components["openflow_discovery"] = old
-  tree = {d: sorted(es) for d, es in tree.items()}
   _graph_labels(out, links)
+  if any(l[0] == l[2] for l in links):
+    out.label("graph:self-loop")
+  if tree is None:
+    return
+  tree = {d: sorted(es) for d, es in tree.items()}
   for clause, msg in G.check_tree(links, tree):
     out.fail(clause, "links %r -> tree %r: %s" % (links, tree, msg))
 
@@ -212,6 +219,8 @@ def _graph_labels(out, links):
   parallel = any(v > 1 for v in pairs.values())
   comps = G.components(nodes, bi)
   cyc = len(set(pairs)) > len(nodes) - len(comps)
+  if any(a == b for (a, _, b, _) in s):
+    cyc = True
   if oneway:
     out.label("graph:one-way")
   if parallel:
@@ -286,8 +295,9 @@ def case_topo(c, out):
         if why:
           event_bad.append(("link-removed-unjustified", k, now, why,
                             {"during": {"disconnect": "switch-disconnect", "flap": "switch-disconnect", "connect": "switch-connect",
-                                        "adv": "time-passing", "quiesce": "time-passing"}.get(st_.get("op"), "other")}))
-    disc.addListenerByName("LinkEvent", on_link)
+                                        "adv": "time-passing", "quiesce": "time-passing", "portflap": "time-passing"}.get(st_.get("op"), "other")}))
+    # first in line: an exception in another listener must not hide the event from the observer
+    disc.addListenerByName("LinkEvent", on_link, priority=10 ** 9)
     net = w.net
     net.record = False
     net.reset_budget(10 ** 9)      # probes are never re-forwarded: no storm to guard against
@@ -295,6 +305,9 @@ def case_topo(c, out):
     def on_deliver(dpid, port, data):
       last_rx[(dpid, port)] = w.clock.now
     net.on_deliver = on_deliver
+    if opts.get("pad"):
+      net.pad_to = 60                          # real wires carry at least 60 bytes (+ FCS)
+    hot = sorted(set(k % len(cables) for k in c.get("hot", []))) if cables else []
     nports = {}
     for (a, ap, b, bp, f, r) in cables:
       nports[a] = max(nports.get(a, 0), ap)
@@ -303,8 +316,15 @@ def case_topo(c, out):
     ports = {}
     for i in range(n):
       d = dpids[i]
-      ports[d] = list(range(1, nports.get(i, 0) + extra + 1))
-      net.add_switch(d, ports=len(ports[d]), expire=False, connect=False)
+      absent = set()
+      for k in hot:
+        (a, ap, b, bp, f, r) = cables[k]
+        if a == i:
+          absent.add(ap)
+        if b == i:
+          absent.add(bp)
+      ports[d] = [p_ for p_ in range(1, nports.get(i, 0) + extra + 1) if p_ not in absent]
+      net.add_switch(d, ports=_phy_ports(d, ports[d]), expire=False, connect=False)
     # directed cables
     dirs = []                                   # [a, ap, b, bp] by index: 2k forward, 2k+1 reverse (None when absent)
     for (a, ap, b, bp, f, r) in cables:
@@ -312,10 +332,12 @@ def case_topo(c, out):
       dirs.append((A, ap, B_, bp) if f else None)
       dirs.append((B_, bp, A, ap) if r else None)
     up = {}
-    for dl in dirs:
+    for i_, dl in enumerate(dirs):
       if dl is not None:
         net.cable(dl[0], dl[1], dl[2], dl[3], both=False)
-        up[dl] = True
+        up[dl] = (i_ // 2) not in hot
+        net.set_cable(dl[0], dl[1], up[dl])
+    plugged = set()
     connected = set()
     silent = set()
     removed_tree_link = [False]
@@ -324,9 +346,15 @@ def case_topo(c, out):
     def sync_dead():
       net.dead = set(d for d in ports if d not in connected) | silent
 
+    cable_of = {}
+    for i_, dl in enumerate(dirs):
+      if dl is not None:
+        cable_of[dl] = i_ // 2
+
     def live_cables():
       return set(dl for dl in up if up[dl] and dl[0] in connected and dl[2] in connected
-                 and dl[0] not in silent and dl[2] not in silent)
+                 and dl[0] not in silent and dl[2] not in silent
+                 and (cable_of[dl] not in hot or cable_of[dl] in plugged))
 
     def track_live():
       lc = live_cables()
@@ -532,7 +560,7 @@ def case_topo(c, out):
           if o == "cut" and up[dl] and dl in live_cables() and touches_tree([(dl[0], dl[1]), (dl[2], dl[3])]):
             removed_tree_link[0] = True
           up[dl] = (o == "restore")
-          net.set_cable(dl[0], dl[1], up[dl])
+          net.set_cable(dl[0], dl[1], up[dl] and (cable_of[dl] not in hot or cable_of[dl] in plugged))
       elif o == "cutboth" or o == "restoreboth":
         k = op["c"] % max(1, len(cables))
         for dl in (dirs[2 * k], dirs[2 * k + 1]) if cables else ():
@@ -541,7 +569,50 @@ def case_topo(c, out):
           if o == "cutboth" and up[dl] and dl in live_cables() and touches_tree([(dl[0], dl[1]), (dl[2], dl[3])]):
             removed_tree_link[0] = True
           up[dl] = (o == "restoreboth")
-          net.set_cable(dl[0], dl[1], up[dl])
+          net.set_cable(dl[0], dl[1], up[dl] and (cable_of[dl] not in hot or cable_of[dl] in plugged))
+      elif o in ("plug", "unplug"):
+        if hot:
+          k = hot[op["c"] % len(hot)]
+          (a, ap, b, bp, f, r) = cables[k]
+          ends = [(dpids[a], ap), (dpids[b], bp)]
+          if o == "plug" and k not in plugged:
+            plugged.add(k)
+            for (d, p_) in ends:
+              if p_ not in ports[d]:
+                ports[d].append(p_)
+                ports[d].sort()
+              net.add_port(d, p_)
+            for dl in (dirs[2 * k], dirs[2 * k + 1]):
+              if dl is not None:
+                up[dl] = True
+                net.set_cable(dl[0], dl[1], True)
+            st_["plugged"] = True
+            w.settle()
+          elif o == "unplug" and k in plugged:
+            plugged.discard(k)
+            for dl in (dirs[2 * k], dirs[2 * k + 1]):
+              if dl is not None:
+                if up[dl] and dl in live_cables() and touches_tree([(dl[0], dl[1]), (dl[2], dl[3])]):
+                  removed_tree_link[0] = True
+                up[dl] = False
+                net.set_cable(dl[0], dl[1], False)
+            for (d, p_) in ends:
+              if p_ in ports[d]:
+                ports[d].remove(p_)
+              net.del_port(d, p_)
+      elif o == "portflap":
+        # the link state of a host port flaps: a burst of PortStatus MODIFY messages
+        d = dpids[op["s"] % n]
+        lp_ = G.link_ports(up)
+        hostp = [p_ for p_ in ports[d] if (d, p_) not in lp_]
+        if d in connected and hostp:
+          st_["portflap"] = True
+          k_ = op["k"] + (op["k"] & 1)             # end with the link up again
+          for _ in range(k_):
+            net.flap_port(d, hostp[-1])
+            w.settle()
+            track_live()
+            w.advance(op["dt"] / 8.0)
       elif o == "silence":
         d = dpids[op["s"] % n]
         if d in connected and d not in silent:
@@ -561,7 +632,7 @@ def case_topo(c, out):
         judge()
       else:
         raise HarnessError("bad op %r" % (op,))
-      if o in ("cut", "restore", "cutboth", "restoreboth", "silence", "unsilence"):
+      if o in ("cut", "restore", "cutboth", "restoreboth", "silence", "unsilence", "plug", "unplug"):
         w.settle()
         immediate(o, before_op)
       for (clause, k, t, msg, extra) in event_bad:
@@ -584,7 +655,7 @@ def case_topo(c, out):
     if removed_tree_link[0]:
       out.label("history:removes-tree-link")
     kinds = set(op["o"] for op in c["ops"])
-    for k in ("disconnect", "flap", "cut", "cutboth", "silence", "restore", "restoreboth"):
+    for k in ("disconnect", "flap", "cut", "cutboth", "silence", "restore", "restoreboth", "plug", "unplug", "portflap"):
       if k in kinds:
         out.label("history:" + k)
     out.label("switches:%d" % n)
@@ -593,6 +664,10 @@ def case_topo(c, out):
         out.label("opt:" + k)
     if not opts.get("install_flow", True):
       out.label("opt:no_flow")
+    if opts.get("pad"):
+      out.label("opt:padding-wires")
+    if any(cb[0] == cb[2] for cb in cables):
+      out.label("graph:self-loop")
     if lt:
       out.label("opt:link_timeout:%s" % ("short" if lt < 10 else "long"))
     if not opts.get("explicit_drop", True):
@@ -638,6 +713,28 @@ def _graphs(n, states):
     yield cables
 
 
+_SELF = [[], [(1, 0)], [(1, 1)]]
+
+
+def _graphs_selfloop(n, states, which=None):
+  """As _graphs, plus on every switch (or only those in `which`) no / a one-way / a two-way cable between two of its own ports."""
+  sw = list(range(n)) if which is None else list(which)
+  for cables in _graphs(n, states):
+    nxt = [1] * n
+    for (a, ap, b, bp, f, r) in cables:
+      nxt[a] = max(nxt[a], ap + 1)
+      nxt[b] = max(nxt[b], bp + 1)
+    for combo in itertools.product(range(len(_SELF)), repeat=len(sw)):
+      if not any(combo):
+        continue
+      extra_, nx = [], list(nxt)
+      for i, si in zip(sw, combo):
+        for (f, r) in _SELF[si]:
+          extra_.append([i, nx[i], i, nx[i] + 1, f, r])
+          nx[i] += 2
+      yield cables + extra_
+
+
 def _links_of(cables, dpids):
   out = []
   for (a, ap, b, bp, f, r) in cables:
@@ -656,6 +753,10 @@ def enum_static(tier):
     ids = list(range(1, n + 1))
     for cables in _graphs(n, states):
       yield {"k": "static", "links": _links_of(cables, ids)}
+  for n, states in [(1, _PAIR3), (2, _PAIR5), (3, _PAIR5 if tier == "thorough" else _PAIR3)]:
+    ids = list(range(1, n + 1))
+    for cables in _graphs_selfloop(n, states):
+      yield {"k": "static", "links": _links_of(cables, ids)}
 
 
 def _converge_ops(n):
@@ -668,7 +769,12 @@ def enum_topo(tier):
     for cables in _graphs(n, states):
       if not cables:
         continue
-      yield {"k": "topo", "n": n, "cables": cables, "extra": 1, "opts": {}, "ops": _converge_ops(n)}
+      # real wires pad short frames; without padding only on 2 switches (POX's own switch does not pad)
+      for pad in ((True, False) if n == 2 else (True,)):
+        yield {"k": "topo", "n": n, "cables": cables, "extra": 1, "opts": {"pad": pad}, "ops": _converge_ops(n)}
+  for n, states, which in [(1, _PAIR3, None), (2, _PAIR5, None), (3, _PAIR3, [1])]:
+    for cables in _graphs_selfloop(n, states, which):
+      yield {"k": "topo", "n": n, "cables": cables, "extra": 1, "opts": {"pad": True}, "ops": _converge_ops(n)}
 
 
 def enum_disconnect(tier):
@@ -680,6 +786,32 @@ def enum_disconnect(tier):
     for s_ in range(3):
       yield {"k": "topo", "n": 3, "cables": cables, "extra": 1, "opts": {},
              "ops": _converge_ops(3) + [{"o": "disconnect", "s": s_}, {"o": "quiesce"}, {"o": "connect", "s": s_}, {"o": "quiesce"}]}
+
+
+def enum_hotplug(tier):
+  """Every graph on 3 switches (3 states per pair) plus one cable that is plugged in later into ports that did not exist
+  at handshake time, between each pair of switches: converge, plug, quiesce, unplug, quiesce."""
+  for cables in _graphs(3, _PAIR3):
+    nxt = [1, 1, 1]
+    for (a, ap, b, bp, f, r) in cables:
+      nxt[a] = max(nxt[a], ap + 1)
+      nxt[b] = max(nxt[b], bp + 1)
+    for (a, b) in ((0, 1), (0, 2), (1, 2)):
+      cs = cables + [[a, nxt[a], b, nxt[b], 1, 1]]
+      yield {"k": "topo", "n": 3, "cables": cs, "hot": [len(cs) - 1], "extra": 1, "opts": {"pad": True},
+             "ops": _converge_ops(3) + [{"o": "plug", "c": 0}, {"o": "quiesce"}, {"o": "unplug", "c": 0}, {"o": "quiesce"}]}
+
+
+def enum_portflap(tier):
+  """A host port whose link state flaps for longer than the link timeout, at several rates, on three fixed graphs."""
+  tri = [[0, 1, 1, 1, 1, 1], [1, 2, 2, 1, 1, 1], [0, 2, 2, 2, 1, 1]]
+  line = [[0, 1, 1, 1, 1, 1], [1, 2, 2, 1, 1, 1]]
+  par = [[0, 1, 1, 1, 1, 1], [0, 2, 1, 2, 1, 1], [1, 3, 2, 1, 1, 0]]
+  for cables in (tri, line, par):
+    for (k, dt) in ((130, 1), (70, 2), (40, 4), (20, 8)):
+      for s_ in range(3):
+        yield {"k": "topo", "n": 3, "cables": cables, "extra": 1, "opts": {"pad": True},
+               "ops": _converge_ops(3) + [{"o": "portflap", "s": s_, "k": k, "dt": dt}, {"o": "quiesce"}]}
 
 
 def enum_options(tier):
@@ -761,6 +893,12 @@ def _random_graph(draw, nmax):
       cables.append([a, nxt[a], b, nxt[b], int(f), int(r)])
       nxt[a] += 1
       nxt[b] += 1
+  # now and then a cable between two ports of one switch
+  for a in range(n):
+    if draw(st.integers(0, 11)) == 0:
+      f, r = draw(st.sampled_from([(1, 1), (1, 1), (1, 0)]))
+      cables.append([a, nxt[a], a, nxt[a] + 1, f, r])
+      nxt[a] += 2
   return n, cables
 
 
@@ -787,6 +925,11 @@ def _topo(draw, nmax, maxops):
       st.fixed_dictionaries({"o": st.just("restoreboth"), "c": cab}),
       st.fixed_dictionaries({"o": st.just("silence"), "s": sw}),
       st.fixed_dictionaries({"o": st.just("unsilence"), "s": sw}),
+      st.fixed_dictionaries({"o": st.just("plug"), "c": cab}),
+      st.fixed_dictionaries({"o": st.just("plug"), "c": cab}),
+      st.fixed_dictionaries({"o": st.just("unplug"), "c": cab}),
+      st.fixed_dictionaries({"o": st.just("portflap"), "s": sw, "k": st.sampled_from([3, 10, 40, 100, 130]),
+                             "dt": st.sampled_from([0, 1, 1, 2, 4])}),
       st.fixed_dictionaries({"o": st.just("adv"), "dt": st.sampled_from([1, 8, 20, 40, 41, 80, 100, 120])}),
       st.just({"o": "quiesce"}),
       st.just({"o": "quiesce"}),
@@ -819,7 +962,12 @@ def _topo(draw, nmax, maxops):
     opts["explicit_drop"] = False
   if draw(st.integers(0, 7)) == 0:
     opts["eat_early_packets"] = True
-  return {"k": "topo", "n": n, "cables": cables, "extra": draw(st.integers(1, 2)), "opts": opts, "ops": ops}
+  if draw(st.integers(0, 9)) < 7:
+    opts["pad"] = True
+  hot = []
+  if cables and draw(st.booleans()):
+    hot = draw(st.lists(st.integers(0, len(cables) - 1), min_size=1, max_size=2, unique=True))
+  return {"k": "topo", "n": n, "cables": cables, "hot": hot, "extra": draw(st.integers(1, 2)), "opts": opts, "ops": ops}
 
 
 def plan(tier):
@@ -829,6 +977,8 @@ def plan(tier):
             Enum("converge-small-graphs", lambda: enum_topo("quick"), shards=16),
             Enum("disconnect-each-switch", lambda: enum_disconnect("quick"), shards=16),
             Enum("launch-options", lambda: enum_options("quick"), shards=16),
+            Enum("hot-plugged-cable", lambda: enum_hotplug("quick"), shards=16),
+            Enum("flapping-host-port", lambda: enum_portflap("quick"), shards=16),
             Hyp("probe-random", _probe, examples=400, shards=4),
             Hyp("static-random", lambda: _static(8), examples=2000, shards=4),
             Hyp("histories", lambda: _topo(5, 8), examples=900, shards=16)]
@@ -837,6 +987,8 @@ def plan(tier):
           Enum("converge-small-graphs", lambda: enum_topo("thorough"), shards=16),
           Enum("disconnect-each-switch", lambda: enum_disconnect("thorough"), shards=16),
           Enum("launch-options", lambda: enum_options("thorough"), shards=16),
+          Enum("hot-plugged-cable", lambda: enum_hotplug("thorough"), shards=16),
+          Enum("flapping-host-port", lambda: enum_portflap("thorough"), shards=16),
           Hyp("probe-random", _probe, examples=6000, shards=8),
           Hyp("static-random", lambda: _static(12), examples=40000, shards=8),
           Hyp("histories", lambda: _topo(12, 20), examples=12000, shards=16)]
